@@ -267,7 +267,8 @@ Strategy 1000 [iteration run].
 Lemma iteration_extends e stmts c s s' : iteration e stmts c s = Ok s' -> extends s s'.
 Proof.
   unfold iteration. intros H. dbind H as [s1 r].
-  destruct (slots_filled s1); [|discriminate]. injection H as <-.
+  destruct (slots_filled s1); [|discriminate].
+  destruct (stale_slot 4 s1 (survivors s1)); [discriminate|]. injection H as <-.
   apply run_extends in E. eapply extends_trans; [exact E|]. apply extends_same. reflexivity.
 Qed.
 
